@@ -446,3 +446,59 @@ Example C19_accepted_lattice_rotation_nonvacuous :
      vec_at QcOps (varr [2;2]%nat ex_o2) [a; b] = mv QcOps ex_M (vec_at QcOps (varr [2;2]%nat ex_o1) [a; b])).
 Proof. exact accepted_lattice_rotation_instance. Qed.
 Print Assumptions C19_accepted_lattice_rotation_nonvacuous.
+
+(* --- completeness of the recorded tables (solid angles, arccos, Newell f/g): check_C19 is
+       tables_complete && check_C19_core; an accepted case lists every key that the model evaluation
+       of that case looks up, so no library value is ever read as the default 0 of an absent key --- *)
+Theorem C19_check_tables_complete : forall c, check_C19 c = true -> tables_ok c.
+Proof. exact check_tables_complete. Qed.
+Print Assumptions C19_check_tables_complete.
+
+(* a present key is answered from a recorded entry *)
+Theorem C19_present_key_reads_entry_solid_angle : forall t a b c d, has4 t a b c d = true ->
+  exists ka kb kc kd v, In (ka, kb, kc, kd, v) t /\ (ka == this a)%Q /\ (kb == this b)%Q /\ (kc == this c)%Q /\
+                        (kd == this d)%Q /\ lookup4 t a b c d = Q2Qc v.
+Proof. exact has4_lookup4. Qed.
+Print Assumptions C19_present_key_reads_entry_solid_angle.
+
+Theorem C19_present_key_reads_entry_arccos : forall t a, has1 t a = true ->
+  exists k v, In (k, v) t /\ (k == this a)%Q /\ lookup1 t a = Q2Qc v.
+Proof. exact has1_lookup1. Qed.
+Print Assumptions C19_present_key_reads_entry_arccos.
+
+Theorem C19_present_key_reads_entry_newell : forall t a b c, has3 t a b c = true ->
+  exists ka kb kc v, In (ka, kb, kc, v) t /\ (ka == this a)%Q /\ (kb == this b)%Q /\ (kc == this c)%Q /\
+                     lookup3 t a b c = Q2Qc v.
+Proof. exact has3_lookup3. Qed.
+Print Assumptions C19_present_key_reads_entry_newell.
+
+(* the required key lists are exactly what the model reads: the model values depend on the tabled
+   function through the listed keys only *)
+Theorem C19_lattice_density_reads_listed_keys : forall (Om Om' : Qc -> Qc -> Qc -> Qc -> Qc) sh h1 h2 (o : idx -> Qc) valid ij,
+  (forall a b c d, In (a, b, c, d) (bl_keys sh o valid ij) -> Om a b c d = Om' a b c d) ->
+  tcd_bl QcOps Om sh h1 h2 o valid ij = tcd_bl QcOps Om' sh h1 h2 o valid ij.
+Proof. exact tcd_bl_reads_keys. Qed.
+Print Assumptions C19_lattice_density_reads_listed_keys.
+
+Theorem C19_angle_reads_listed_key : forall (acosf degf : Qc -> Qc) ax deg (o : idx -> Qc) i,
+  angle_arr QcOps acosf qc_clip degf ax deg o i
+  = (if deg then degf (acosf (angle_key ax o i)) else acosf (angle_key ax o i)).
+Proof. exact angle_reads_key. Qed.
+Print Assumptions C19_angle_reads_listed_key.
+
+Theorem C19_demag_reads_listed_keys : forall (fN fN' gN gN' : Qc -> Qc -> Qc -> Qc) pi4 dx dy dz x y z,
+  (forall a b c, In (a, b, c) (demag_fkeys dx dy dz x y z) -> fN a b c = fN' a b c) ->
+  (forall a b c, In (a, b, c) (demag_gkeys dx dy dz x y z) -> gN a b c = gN' a b c) ->
+  N6 QcOps fN gN pi4 dx dy dz x y z = N6 QcOps fN' gN' pi4 dx dy dz x y z.
+Proof. exact N6_reads_keys. Qed.
+Print Assumptions C19_demag_reads_listed_keys.
+
+(* negative examples: cases with EMPTY tables are rejected (the demag one passes the comparison part
+   alone, which is what the completeness conjunct closes) *)
+Example C19_empty_tables_rejected :
+  check_C19 (CDemagN (88#7)%Q [1; 2; 3]%Q [[1; 2; 3]%Q] [] [] [[0;0;0;0;0;0]%Q]) = false /\
+  check_C19_core (CDemagN (88#7)%Q [1; 2; 3]%Q [[1; 2; 3]%Q] [] [] [[0;0;0;0;0;0]%Q]) = true /\
+  check_C19 (CTcdBL [2;2]%nat 1%Q 1%Q ex_o1 [true;true;true;true] [] [0; 0; 0; 0]%Q) = false /\
+  check_C19 (CAngle [2]%nat 0 false 1%Q [1; 0; 0; 0; 1; 0]%Q [] [1]%nat [0%Q]) = false.
+Proof. exact empty_tables_rejected. Qed.
+Print Assumptions C19_empty_tables_rejected.
